@@ -687,6 +687,11 @@ def _while_variant(w, fi, cfg, st: ast.While):
     if g_cls is not None and g_cond is not None:
         cls = g_cls
         cond = g_cond
+        # orientation: `LIMIT > c` is `c < LIMIT`
+        if isinstance(cond, ast.Compare) and len(cond.ops) == 1 and isinstance(cond.ops[0], (ast.Gt, ast.GtE)) and \
+                isinstance(cond.comparators[0], ast.Name):
+            cond = ast.Compare(left=cond.comparators[0], ops=[ast.Lt() if isinstance(cond.ops[0], ast.Gt) else ast.LtE()],
+                               comparators=[cond.left])
         if cls and isinstance(cond, ast.Compare) and len(cond.ops) == 1 and isinstance(cond.ops[0], (ast.Lt, ast.LtE)) \
                 and isinstance(cond.left, ast.Name):
             c = cond.left.id
